@@ -192,6 +192,128 @@ HAND = {
     @update
     def up_c(): s.c @= s.in_ ^ 0x0f
 ''',
+  'hand:MetaChain23': '''
+    s.in_ = InPort(Bits8); s.out = OutPort(Bits8); s.v = [Wire(Bits8) for _ in range(23)]
+    @update
+    def st0(): s.v[0] @= s.in_ + 1
+    @update
+    def st1():
+      if s.v[0][0]: s.v[1] @= s.v[0] + 1
+      else: s.v[1] @= s.v[0] ^ 1
+    @update
+    def st2(): s.v[2] @= s.v[1] + 2
+    @update
+    def st3():
+      if s.v[2][0]: s.v[3] @= s.v[2] + 3
+      else: s.v[3] @= s.v[2] ^ 3
+    @update
+    def st4(): s.v[4] @= s.v[3] + 4
+    @update
+    def st5():
+      if s.v[4][0]: s.v[5] @= s.v[4] + 5
+      else: s.v[5] @= s.v[4] ^ 5
+    @update
+    def st6(): s.v[6] @= s.v[5] + 6
+    @update
+    def st7():
+      if s.v[6][0]: s.v[7] @= s.v[6] + 7
+      else: s.v[7] @= s.v[6] ^ 7
+    @update
+    def st8(): s.v[8] @= s.v[7] + 8
+    @update
+    def st9():
+      if s.v[8][0]: s.v[9] @= s.v[8] + 9
+      else: s.v[9] @= s.v[8] ^ 9
+    @update
+    def st10(): s.v[10] @= s.v[9] + 10
+    @update
+    def st11():
+      if s.v[10][0]: s.v[11] @= s.v[10] + 11
+      else: s.v[11] @= s.v[10] ^ 11
+    @update
+    def st12(): s.v[12] @= s.v[11] + 12
+    @update
+    def st13():
+      if s.v[12][0]: s.v[13] @= s.v[12] + 13
+      else: s.v[13] @= s.v[12] ^ 13
+    @update
+    def st14(): s.v[14] @= s.v[13] + 14
+    @update
+    def st15():
+      if s.v[14][0]: s.v[15] @= s.v[14] + 15
+      else: s.v[15] @= s.v[14] ^ 15
+    @update
+    def st16(): s.v[16] @= s.v[15] + 16
+    @update
+    def st17():
+      if s.v[16][0]: s.v[17] @= s.v[16] + 17
+      else: s.v[17] @= s.v[16] ^ 17
+    @update
+    def st18(): s.v[18] @= s.v[17] + 18
+    @update
+    def st19():
+      if s.v[18][0]: s.v[19] @= s.v[18] + 19
+      else: s.v[19] @= s.v[18] ^ 19
+    @update
+    def st20(): s.v[20] @= s.v[19] + 20
+    @update
+    def st21():
+      if s.v[20][0]: s.v[21] @= s.v[20] + 21
+      else: s.v[21] @= s.v[20] ^ 21
+    @update
+    def st22(): s.v[22] @= s.v[21] + 22
+    @update
+    def st_out(): s.out @= s.v[22]
+''',
+  'hand:Branchy22': '''
+    s.in_ = InPort(Bits8); s.sel = InPort(Bits5); s.out = OutPort(Bits8); s.cnt = Wire(Bits8); s.k = Wire(Bits8); s.o2 = OutPort(Bits8)
+    @update
+    def up_incr(): s.cnt @= s.in_ + 1
+    @update
+    def up_k(): s.k @= s.in_ ^ 0x33
+    @update
+    def up_decode():
+      s.out @= s.cnt
+      if s.sel == 0: s.out @= s.cnt + s.k + 0
+      if s.sel == 1: s.out @= s.cnt + s.k + 1
+      if s.sel == 2: s.out @= s.cnt + s.k + 2
+      if s.sel == 3: s.out @= s.cnt + s.k + 3
+      if s.sel == 4: s.out @= s.cnt + s.k + 4
+      if s.sel == 5: s.out @= s.cnt + s.k + 5
+      if s.sel == 6: s.out @= s.cnt + s.k + 6
+      if s.sel == 7: s.out @= s.cnt + s.k + 7
+      if s.sel == 8: s.out @= s.cnt + s.k + 8
+      if s.sel == 9: s.out @= s.cnt + s.k + 9
+      if s.sel == 10: s.out @= s.cnt + s.k + 10
+      if s.sel == 11: s.out @= s.cnt + s.k + 11
+      if s.sel == 12: s.out @= s.cnt + s.k + 12
+      if s.sel == 13: s.out @= s.cnt + s.k + 13
+      if s.sel == 14: s.out @= s.cnt + s.k + 14
+      if s.sel == 15: s.out @= s.cnt + s.k + 15
+      if s.sel == 16: s.out @= s.cnt + s.k + 16
+      if s.sel == 17: s.out @= s.cnt + s.k + 17
+      if s.sel == 18: s.out @= s.cnt + s.k + 18
+      if s.sel == 19: s.out @= s.cnt + s.k + 19
+      if s.sel == 20: s.out @= s.cnt + s.k + 20
+      if s.sel == 21: s.out @= s.cnt + s.k + 21
+    @update
+    def up_o2(): s.o2 @= s.out + 1
+''',
+  'hand:ConstParts': '''
+    s.in_ = InPort(Bits8); s.out = OutPort(Bits8); s.o2 = OutPort(Bits8); s.w = Wire(Bits8); s.p = Wire(P)
+    s.w[4:8] //= 0xA
+    s.p.a //= 3
+    @update
+    def up_lo(): s.w[0:4] @= s.in_[0:4]
+    @update
+    def up_pb(): s.p.b @= s.in_[4:8]
+    @update
+    def up_rd(): s.out @= s.w ^ concat(s.p.a, s.p.b)
+    @update
+    def up_rd2(): s.o2 @= zext(s.w[4:8], 8) + zext(s.p.a, 8)
+''',
+  'hand:ConstraintOnNet': None,
+  'hand:TwoConstrainers': None,
   'hand:NameClash': None,   # built below: many blocks whose names are prefixes of each other
 }
 
@@ -225,6 +347,50 @@ class HandNameClash(Component):
   return src
 
 
+def _extra_classes():
+  return '''
+class Prod(Component):
+  def construct(s):
+    s.in_ = InPort(Bits8); s.out = OutPort(Bits8)
+    @update
+    def up_prod(): s.out @= s.in_ + 7
+class HandConstraintOnNet(Component):     # an explicit constraint against a signal that is driven by a connection (a net block)
+  def construct(s):
+    s.in_ = InPort(Bits8); s.x = Wire(Bits16); s.prev = OutPort(Bits8); s.cur = OutPort(Bits8); s.prod = Prod()
+    s.prod.in_ //= s.in_
+    s.x[0:8] //= s.prod.out
+    @update
+    def up_hi(): s.x[8:16] @= s.in_
+    @update
+    def up_sample(): s.prev @= s.x[0:8]
+    @update
+    def up_cur(): s.cur @= s.x[0:8] + s.x[8:16]
+    s.add_constraints( U(up_sample) < WR(s.x[0:8]) )
+class CChild(Component):                  # the child constrains readers of its own output ...
+  def construct(s):
+    s.in_ = InPort(Bits8); s.out = OutPort(Bits8); s.snap = OutPort(Bits8)
+    @update
+    def up_cout(): s.out @= s.in_ + 1
+    @update
+    def up_csnap(): s.snap @= s.out
+    s.add_constraints( U(up_csnap) < WR(s.out) )
+class HandTwoConstrainers(Component):     # ... and so does the parent, on the very same signal
+  def construct(s):
+    s.in_ = InPort(Bits8); s.prev = OutPort(Bits8); s.snap = OutPort(Bits8); s.cur = OutPort(Bits8); s.c = CChild()
+    s.c.in_ //= s.in_
+    s.snap //= s.c.snap
+    @update
+    def up_prev(): s.prev @= s.c.out
+    @update
+    def up_cur(): s.cur @= s.c.out + 1
+    s.add_constraints( U(up_prev) < WR(s.c.out) )
+'''
+
+
+# designs whose explicit RD/WR constraints deliberately INVERT a write-before-read pair (a block samples the value of the
+# previous pass): they have no fixed point by design and belong to C02 only, not to C01
+INVERTING = {'hand:ConstraintOnNet', 'hand:TwoConstrainers'}
+
 _mod = None
 _names = None
 
@@ -240,7 +406,9 @@ def _build():
     names[f"shape:{i}"] = (f"Shape{i}", f"{mode}: W {wt} / R {rt_}")
   for k, body in HAND.items():
     cn = 'Hand' + k.split(':')[1]
-    if body is None: src += _nameclash()
+    if k in ('hand:ConstraintOnNet', 'hand:TwoConstrainers'):
+      if 'class Prod(' not in src: src += _extra_classes()
+    elif body is None: src += _nameclash()
     else: src += f"\nclass {cn}(Component):\n  def construct(s):{body}\n"
     names[k] = (cn, k)
   d = tempfile.mkdtemp(prefix='schedgen_', dir=os.environ.get('VERIF_SCRATCH') or None)
